@@ -759,7 +759,8 @@ func isHarnessFunc(fn string) bool {
 		name = fn[i+1:]
 	}
 	name = strings.TrimPrefix(name, "(")
-	return strings.HasPrefix(name, "zz") || strings.HasPrefix(name, "ZZ") || strings.Contains(fn, "/zzvrt.")
+	// also methods of harness types, e.g. (*.../parser.zzTok).GetStop
+	return strings.HasPrefix(name, "zz") || strings.HasPrefix(name, "ZZ") || strings.Contains(fn, "/zzvrt.") || strings.Contains(fn, ".zz") || strings.Contains(fn, ".ZZ")
 }
 
 func firstLineOf(s string) string {
